@@ -9,6 +9,7 @@ Import ListNotations.
 From Verif Require Import Model.Ast Model.Lexer Model.Parser Model.Printer Model.Spelling Model.Front
   Proofs.ParserProofs Proofs.LexerProofs Proofs.FrontProofs.
 From Verif Require Model.Compile Model.Link.
+From Verif Require Base.PyValue Model.Dates.        (* bld-link: s2z for the text of C06_run_text_library *)
 From Verif Require Model.Grammar Gen.Grammar.
 
 (* The grammar introspected from /repo on this run (tatsu.compile(bql.ebnf): rules, choices,
@@ -109,6 +110,18 @@ Theorem C06_run_text_print : forall (sch : Compile.schema) (p : Compile.params) 
   = match to_cstmt (stmt_erase s) with Some c => Link.run_stmt sch p dat c | None => None end.
 Proof. exact run_text_print. Qed.
 Print Assumptions C06_run_text_print.
+
+(* a text using the scalar library modelled for C18 (linked into the executor model: Eval.apply_func), run from its
+   characters to its rows inside Coq; the dates are 2020-01-01, 2020-07-03 and NULL *)
+Example C06_run_text_library :
+  let v := Compile.mk_table "v"%string [("d", "date"); ("b", "str")]%string ["d"; "b"]%string false in
+  let rows := [[PyValue.VDate 737425; PyValue.VStr (Dates.s2z "Assets:Cash")]; [PyValue.VDate 737609; PyValue.VStr (Dates.s2z "Income")];
+               [PyValue.VNull; PyValue.VStr (Dates.s2z "Assets:Bank")]] in
+  run_text [v] Compile.PNone [("v"%string, rows)]
+    (Dates.s2z "select weekday(d), root(b, 1), date_part('week', d) + length(str(d)) from #v where year(d) = 2020 order by 2 desc")
+  = Some (inl [[PyValue.VStr (Dates.s2z "Fri"); PyValue.VStr (Dates.s2z "Income"); PyValue.VInt 37];
+               [PyValue.VStr (Dates.s2z "Wed"); PyValue.VStr (Dates.s2z "Assets"); PyValue.VInt 11]]).
+Proof. vm_compute. reflexivity. Qed.
 
 (* The front end loses nothing: statements with the same translation are the same statement (this covers names,
    every literal form incl. date -> ordinal, clause structure and placeholder numbering). *)
